@@ -174,6 +174,8 @@ struct TcpNameserver {
     tcp: Option<tokio::net::TcpStream>,
     tcp_last_send_activity: Instant,
     tcp_last_recv_activity: Instant,
+    /* What has been read from the TCP connection but does not yet make up a whole reply. */
+    tcp_recv_buf: Vec<u8>,
     qid2reply: std::collections::HashMap<u16, Responder<super::dnspkt::DNSPkt>>,
 }
 
@@ -185,6 +187,7 @@ impl TcpNameserver {
             tcp: None,
             tcp_last_send_activity: Instant::now(),
             tcp_last_recv_activity: Instant::now(),
+            tcp_recv_buf: vec![],
             qid2reply: Default::default(),
         });
 
@@ -257,23 +260,37 @@ impl TcpNameserver {
         }
     }
 
+    /* This is polled from a select!() in run(), and is dropped whenever another branch (a new
+     * query to send) completes first.  So whatever has been read so far has to live in self, not
+     * in this future: a reply may well arrive in several pieces.
+     */
     async fn read_reply(&mut self) -> Result<Vec<u8>, Error> {
         if let Some(ref mut tcp_sock) = self.tcp {
             use tokio::io::AsyncReadExt as _;
-            let mut lbuf = [0u8; 2];
-            tcp_sock
-                .read_exact(&mut lbuf)
-                .await
-                .map_err(Error::FailedToRecv)?;
-            let l = u16::from_be_bytes(lbuf);
-            let mut msg_buf = vec![0u8; l as usize];
-            log::trace!("Reading {} bytes from TCP socket", l);
-            tcp_sock
-                .read_exact(&mut msg_buf[..])
-                .await
-                .map_err(Error::FailedToRecv)?;
-            self.tcp_last_recv_activity = Instant::now();
-            Ok(msg_buf)
+            loop {
+                if self.tcp_recv_buf.len() >= 2 {
+                    let l =
+                        u16::from_be_bytes([self.tcp_recv_buf[0], self.tcp_recv_buf[1]]) as usize;
+                    if self.tcp_recv_buf.len() >= 2 + l {
+                        let msg_buf = self.tcp_recv_buf[2..2 + l].to_vec();
+                        self.tcp_recv_buf.drain(..2 + l);
+                        self.tcp_last_recv_activity = Instant::now();
+                        return Ok(msg_buf);
+                    }
+                }
+                let mut chunk = [0u8; 4096];
+                let n = tcp_sock
+                    .read(&mut chunk)
+                    .await
+                    .map_err(Error::FailedToRecv)?;
+                if n == 0 {
+                    return Err(Error::FailedToRecv(
+                        std::io::ErrorKind::UnexpectedEof.into(),
+                    ));
+                }
+                log::trace!("Read {} bytes from TCP socket", n);
+                self.tcp_recv_buf.extend_from_slice(&chunk[..n]);
+            }
         } else {
             panic!("Read from non existant tcp socket");
         }
@@ -293,6 +310,7 @@ impl TcpNameserver {
 
     fn tcp_teardown(&mut self, err: Error) {
         self.tcp = None;
+        self.tcp_recv_buf.clear();
         log::trace!("Tearing down {} TCP channel: {}", self.addr, err);
         for (_qid, chan) in self.qid2reply.drain() {
             chan.send(Err(Error::TcpConnection(format!(
